@@ -76,6 +76,28 @@ class Prop:
         return {"results": results, "histogram": hist, "distinct_nontrivial": len(seen), "samples": samples}
 
 
+def seg_match(segs, text):
+    """does `text` equal the concatenation of the segments, each optional segment kept whole or dropped?"""
+    import functools, sys
+    sys.setrecursionlimit(100000)
+    n = len(segs)
+
+    @functools.lru_cache(maxsize=None)
+    def go(i, pos):
+        if i == n:
+            return pos == len(text)
+        s = segs[i]["s"]
+        if text.startswith(s, pos) and go(i + 1, pos + len(s)):
+            return True
+        if segs[i]["opt"] and go(i + 1, pos):
+            return True
+        return False
+    try:
+        return go(0, 0)
+    except RecursionError:
+        return "".join(x["s"] for x in segs) == text
+
+
 def out_of(x):
     if isinstance(x, dict):
         return (x.get("class"), x.get("out"))
@@ -178,8 +200,13 @@ class RenderProp(Prop):
                 corr = i[0] == m[0]  # same error class; messages are not compared
         prop = None
         s = out_of(spec)
-        if s[0] == "ok":
+        if isinstance(spec, dict) and spec.get("class") == "ok" and "segs" in spec:
+            prop = i[0] == "ok" and seg_match(spec["segs"], i[1])
+            s = ("ok", "".join(x["s"] for x in spec["segs"]))
+        elif s[0] == "ok":
             prop = (i == s)
+        elif s[0] == "exec-error":
+            prop = i[0] == "exec-error"
         detail = "%s: impl=%r model=%r spec=%r%s" % (case.get("js") or case.get("what") or case["id"], i, m, s if s[0] else None,
                                                     " (model: %s)" % (model or {}).get("msg") if m[0] != "ok" else "")
         case["_declined"] = declined
@@ -196,7 +223,10 @@ class C01(RenderProp):
     id = "C01"
     n_quick = 3000
     n_thorough = 40000
-    required_theorems = []
+    required_theorems = ["C01_extract", "C01_ops_table", "C01_closures", "C01_arith", "C01_rem", "C01_concat", "C01_compare_numbers",
+                         "C01_compare_strings", "C01_truthiness", "C01_logical_operands", "C01_conditional"]
+    assumptions = ["numbers are modelled by exact rationals; Number.String by fmtG10 (validated by correspondence)",
+                   "the round trip pipeline AST -> action source text -> forked text/template parser is taken as the identity (validated end to end by the correspondence)"]
     rule = ("type-directed random expression trees of the supported subset (depth <= 5 quick / 8 thorough) over 8-12 typed data "
             "variables; printed by `= e` through LoadTemplates + Render. Non-trivial: depth >= 2 and the model did not decline; "
             "distinct by (expression source, data).")
@@ -205,4 +235,20 @@ class C01(RenderProp):
         return case.get("depth", 0) >= 2 and not case.get("_declined")
 
 
-PROPS = {p.id: p for p in [C01(), C17(), C18()]}
+class C02(RenderProp):
+    id = "C02"
+    n_quick = 1500
+    n_thorough = 25000
+    required_theorems = ["C02_extract", "C02_cap_about_ten_thousand", "C02_while_never_hangs", "C02_while_stops", "C02_while_continues"]
+    assumptions = ["the executor model (PugModel.Tpl.Exec) is hand-written; its agreement with tpl_exec.go is validated by the correspondence"]
+    rule = ("random control-flow programs: if/else-if/else chains (boolean, numeric, string, null and undefined tests), case with "
+            "default in any position, each over data arrays / literal arrays / objects (data maps and literals) / missing and empty "
+            "collections with and without index, while loops that mutate their own test variables (x++ and x = x + 1), nested to depth "
+            "3 (quick) / 5 (thorough), assignments inside bodies printed after the construct, and a bounded number of loops that only "
+            "the iteration cap ends. Non-trivial: contains at least one control construct; distinct by whole document + data.")
+
+    def nontrivial(self, case, impl):
+        return case.get("depth", 0) >= 3 and not case.get("_declined")
+
+
+PROPS = {p.id: p for p in [C01(), C02(), C17(), C18()]}
